@@ -161,11 +161,12 @@ func autoSpecs(repo string, specs []fileSpec) []fileSpec {
 }
 
 type rewriter struct {
-	sp     fileSpec
-	fset   *token.FileSet
-	needRT bool
-	tmp    int
-	errs   []string
+	chanNames map[string]bool // identifiers / field names declared with a channel type in this file
+	sp        fileSpec
+	fset      *token.FileSet
+	needRT    bool
+	tmp       int
+	errs      []string
 }
 
 func (r *rewriter) errorf(pos token.Pos, format string, a ...interface{}) {
@@ -186,7 +187,40 @@ func rewrite(path string, sp fileSpec) error {
 	if err != nil {
 		return err
 	}
-	r := &rewriter{sp: sp, fset: fset}
+	r := &rewriter{sp: sp, fset: fset, chanNames: map[string]bool{}}
+	if sp.chans {
+		// a light, name-based inference of which variables and fields are channels (needed for "for v := range ch")
+		ast.Inspect(f, func(n ast.Node) bool {
+			switch t := n.(type) {
+			case *ast.Field:
+				if _, ok := t.Type.(*ast.ChanType); ok {
+					for _, nm := range t.Names {
+						r.chanNames[nm.Name] = true
+					}
+				}
+			case *ast.ValueSpec:
+				if _, ok := t.Type.(*ast.ChanType); ok {
+					for _, nm := range t.Names {
+						r.chanNames[nm.Name] = true
+					}
+				}
+				for i, v := range t.Values {
+					if isMakeChan(v) && i < len(t.Names) {
+						r.chanNames[t.Names[i].Name] = true
+					}
+				}
+			case *ast.AssignStmt:
+				for i, v := range t.Rhs {
+					if isMakeChan(v) && i < len(t.Lhs) {
+						if id, ok := t.Lhs[i].(*ast.Ident); ok {
+							r.chanNames[id.Name] = true
+						}
+					}
+				}
+			}
+			return true
+		})
+	}
 	if sp.sync {
 		found := false
 		for _, im := range f.Imports {
@@ -397,6 +431,26 @@ func (r *rewriter) stmt(s ast.Stmt, points bool) []ast.Stmt {
 		}
 		r.block(t.Body, points)
 	case *ast.RangeStmt:
+		if r.sp.chans && r.chanExpr(t.X) {
+			// for v := range ch { body }  ->  for { v, ok := ch.Recv2(); if !ok { break }; body }
+			r.block(t.Body, points)
+			r.tmp++
+			okID := ast.NewIdent(fmt.Sprintf("_vok%d", r.tmp))
+			var key ast.Expr = ast.NewIdent("_")
+			if t.Key != nil {
+				key = t.Key
+			}
+			if t.Value != nil {
+				r.errorf(t.Pos(), "range over a channel with two variables")
+			}
+			recv := &ast.AssignStmt{Lhs: []ast.Expr{key, okID}, Tok: token.DEFINE, Rhs: []ast.Expr{call(sel(r.expr(t.X), "Recv2"))}}
+			if id, ok := key.(*ast.Ident); ok && id.Name == "_" {
+				recv.Lhs[0] = ast.NewIdent("_")
+			}
+			brk := &ast.IfStmt{Cond: &ast.UnaryExpr{Op: token.NOT, X: okID}, Body: &ast.BlockStmt{List: []ast.Stmt{&ast.BranchStmt{Tok: token.BREAK}}}}
+			body := append([]ast.Stmt{recv, brk}, t.Body.List...)
+			return []ast.Stmt{&ast.ForStmt{Body: &ast.BlockStmt{List: body}}}
+		}
 		t.X = r.expr(t.X)
 		r.block(t.Body, points)
 	case *ast.SwitchStmt:
@@ -477,6 +531,30 @@ func (r *rewriter) exprsIn(fl *ast.FuncLit) {
 		r.chanTypesInFieldList(fl.Type.Params)
 		r.chanTypesInFieldList(fl.Type.Results)
 	}
+}
+
+func isMakeChan(e ast.Expr) bool {
+	c, ok := e.(*ast.CallExpr)
+	if !ok || len(c.Args) == 0 {
+		return false
+	}
+	id, ok := c.Fun.(*ast.Ident)
+	if !ok || id.Name != "make" {
+		return false
+	}
+	_, ok = c.Args[0].(*ast.ChanType)
+	return ok
+}
+
+// chanExpr reports whether e names something declared as a channel in this file.
+func (r *rewriter) chanExpr(e ast.Expr) bool {
+	switch t := e.(type) {
+	case *ast.Ident:
+		return r.chanNames[t.Name]
+	case *ast.SelectorExpr:
+		return r.chanNames[t.Sel.Name]
+	}
+	return false
 }
 
 func isDoneRecv(u *ast.UnaryExpr) bool {
